@@ -155,7 +155,7 @@ def handle (op : String) (args : List String) (impl : Impl) : Option Ans :=
       | some r => verdict [("finite", r.isFinite), ("close", closeTo 2 r.toRat ((1000000000 : Rat) / (fs : Rat)) 0)]
       | none => "FAIL:" ++ implWord impl
     pure { model := "ok " ++ F64.showHex m, spec := sp, branch := "from_seconds_u:" ++ u }
-  | "dmulf", [d, q] => do
+  | "dmulf", [d, q] | "fmuld", [d, q] => do
     let d ← parseDur? d; let q ← F64.parseHex? q
     let v := sval d
     if v.natAbs > TENKY.natAbs then none else
